@@ -269,3 +269,201 @@ Proof.
   destruct (Z.leb_spec (- 2 ^ 63) (Z.quot d (Z.of_nat tc))); destruct (Z.ltb_spec (Z.quot d (Z.of_nat tc)) (2 ^ 63));
     cbn [andb]; try reflexivity; lia.
 Qed.
+
+(* ================================================================================ *)
+(* ALL i64 operands: the share may exceed the exact quotient, but only by the two    *)
+(* roundings (of `d as f64` and of the division): tc * share <= d * (1 + 2^-51).    *)
+(* ================================================================================ *)
+
+Lemma rnd_0 : rnd 0 = 0.
+Proof. apply round_0. auto with typeclass_instances. Qed.
+
+Lemma pow64_format : F64 (IZR (2 ^ 64)).
+Proof.
+  rewrite fexp64_FLT. apply generic_format_FLT. exists (Float radix2 1 64).
+  - unfold F2R. cbn [Fnum Fexp]. change (bpow radix2 64) with (IZR (2 ^ 64)). lra.
+  - cbn. lia.
+  - cbn. lia.
+Qed.
+
+Lemma pow64_lt_emax : IZR (2 ^ 64) < bpow radix2 emax.
+Proof. change (IZR (2 ^ 64)) with (bpow radix2 64). apply bpow_lt. lia. Qed.
+
+Lemma rnd_abs_le64 x : Rabs x <= IZR (2 ^ 64) -> Rabs (rnd x) <= IZR (2 ^ 64).
+Proof.
+  intros H. apply abs_round_le_generic; auto with typeclass_instances.
+  - apply valid64.
+  - apply pow64_format.
+Qed.
+
+(* `d as f64` for any |d| <= 2^64: the correctly rounded value, finite *)
+Lemma BofZ_round z : (Z.abs z <= 2 ^ 64)%Z -> B2R (BofZ z) = rnd (IZR z) /\ finB (BofZ z) = true.
+Proof.
+  intros Hz. pose proof (binary_normalize_correct prec emax Hprec Hmax mode_NE z 0 false) as H.
+  cbv zeta in H. fold (BofZ z) in H.
+  assert (E : F2R (Float radix2 z 0) = IZR z) by (unfold F2R; cbn; lra).
+  rewrite E in H. change (round_mode mode_NE) with ZnearestE in H.
+  rewrite Rlt_bool_true in H; [tauto|].
+  apply Rle_lt_trans with (IZR (2 ^ 64)); [|apply pow64_lt_emax].
+  apply rnd_abs_le64. rewrite <- abs_IZR. apply IZR_le. exact Hz.
+Qed.
+
+Definition u53 : R := / 2 * bpow radix2 (- prec + 1).
+
+Lemma u53_val : u53 = / IZR (2 ^ 53).
+Proof.
+  unfold u53. change (- prec + 1)%Z with (- (52))%Z. rewrite bpow_opp.
+  change (bpow radix2 52) with (IZR (2 ^ 52)). change (2 ^ 53)%Z with (2 * 2 ^ 52)%Z. rewrite mult_IZR.
+  field. apply not_0_IZR. lia.
+Qed.
+
+(* relative error of rounding a value that is 0 or at least 2^-1022 *)
+Lemma rnd_rel_up x : 0 <= x -> (x = 0 \/ bpow radix2 (-1022) <= x) -> 0 <= rnd x <= x * (1 + u53).
+Proof.
+  intros Hx [->|Hn].
+  - rewrite rnd_0. lra.
+  - split.
+    + rewrite <- rnd_0. apply rnd_mono. exact Hx.
+    + assert (Hnorm : bpow radix2 (-1074 + prec - 1) <= Rabs x) by (rewrite Rabs_pos_eq by lra; exact Hn).
+      pose proof (relative_error_N_FLT radix2 (-1074) prec eq_refl (fun n => negb (Z.even n)) x Hnorm) as Herr.
+      change (round radix2 (FLT_exp (-1074) prec) (Znearest (fun n => negb (Z.even n))) x) with (rnd x) in Herr.
+      rewrite (Rabs_pos_eq x) in Herr by lra. fold u53 in Herr.
+      apply Rabs_le_inv in Herr. lra.
+Qed.
+
+Theorem headroom_f64_bounds d tc h : (Z.abs d <= 2 ^ 64)%Z -> (1 <= Z.of_nat tc <= 2 ^ 53)%Z ->
+  headroom_f64 d tc = Some h ->
+  ((0 <= d)%Z -> (0 <= h)%Z /\ (Z.of_nat tc * h * 2 ^ 51 <= d * (2 ^ 51 + 1))%Z) /\
+  ((d <= 0)%Z -> (h <= 0)%Z).
+Proof.
+  intros Hd Htc. unfold headroom_f64.
+  destruct (BofZ_round d Hd) as [Rd Fd].
+  destruct (BofZ_correct (Z.of_nat tc)) as [Rt Ft]; [lia|].
+  rewrite (BofZ_link d), (BofZ_link (Z.of_nat tc)), div_link.
+  assert (Hne : B2R (BofZ (Z.of_nat tc)) <> 0) by (rewrite Rt; apply not_0_IZR; lia).
+  pose proof (Bdiv_correct prec emax Hprec Hmax mode_NE (BofZ d) (BofZ (Z.of_nat tc)) Hne) as H.
+  rewrite Rd, Rt in H. change (round_mode mode_NE) with ZnearestE in H.
+  set (x := rnd (IZR d)) in *. set (T := IZR (Z.of_nat tc)) in *.
+  assert (HT1 : 1 <= T) by (apply IZR_le; lia).
+  assert (HTi : 0 < / T <= 1).
+  { split; [apply Rinv_0_lt_compat; lra|]. rewrite <- Rinv_1. apply Rinv_le; lra. }
+  assert (Hx64 : Rabs x <= IZR (2 ^ 64)).
+  { apply rnd_abs_le64. rewrite <- abs_IZR. apply IZR_le. exact Hd. }
+  assert (Hq64 : Rabs (x / T) <= IZR (2 ^ 64)).
+  { unfold Rdiv. rewrite Rabs_mult, (Rabs_pos_eq (/ T)) by lra.
+    pose proof (Rabs_pos x). nra. }
+  rewrite Rlt_bool_true in H
+    by (apply Rle_lt_trans with (IZR (2 ^ 64)); [apply rnd_abs_le64; exact Hq64|apply pow64_lt_emax]).
+  destruct H as (HR & HF & _). rewrite Fd in HF.
+  rewrite (trunc_Z_B2SF _ HF), HR.
+  set (y := rnd (x / T)) in *.
+  destruct (in_i64 (Ztrunc y)); [|discriminate]. intros [= <-].
+  split.
+  - intros Hd0.
+    assert (Hd0R : 0 <= IZR d) by (apply IZR_le; exact Hd0).
+    (* first rounding *)
+    assert (Hx : 0 <= x <= IZR d * (1 + u53)).
+    { apply rnd_rel_up; [exact Hd0R|].
+      destruct (Z.eq_dec d 0) as [->|Nd]; [now left|right].
+      apply Rle_trans with 1; [|apply IZR_le; lia].
+      change 1 with (bpow radix2 0). apply bpow_le. lia. }
+    (* second rounding *)
+    assert (Hq0 : 0 <= x / T) by (unfold Rdiv; nra).
+    assert (Hy : 0 <= y <= x / T * (1 + u53)).
+    { apply rnd_rel_up; [exact Hq0|].
+      destruct (Req_dec x 0) as [E0|N0]; [left; rewrite E0; unfold Rdiv; lra|right].
+      (* x is a non-zero rounded non-negative integer: x >= 1 *)
+      assert (Hx1 : 1 <= x).
+      { assert (Hd1 : (1 <= d)%Z).
+        { destruct (Z.eq_dec d 0) as [->|]; [|lia]. exfalso. apply N0. unfold x. apply rnd_0. }
+        unfold x. rewrite <- (rnd_id 1) by (apply (int_format 1); cbn; lia).
+        apply rnd_mono. apply IZR_le. exact Hd1. }
+      apply Rle_trans with (/ IZR (2 ^ 53)).
+      - rewrite pow53, <- bpow_opp. apply bpow_le. lia.
+      - apply Rle_trans with (/ T).
+        + apply Rinv_le; [lra|]. unfold T. apply IZR_le. lia.
+        + unfold Rdiv. rewrite <- (Rmult_1_l (/ T)) at 1. apply Rmult_le_compat_r; lra. }
+    rewrite Ztrunc_floor by lra.
+    assert (Hfl : IZR (Zfloor y) <= y) by apply Zfloor_lb.
+    split.
+    + apply Zfloor_lub. lra.
+    + (* T * floor y <= T * y <= x (1+u) <= d (1+u)^2 <= d (1 + 2^-51) *)
+      apply le_IZR. rewrite !mult_IZR, plus_IZR. fold T.
+      assert (Hu : 0 < u53 /\ (1 + u53) * (1 + u53) <= 1 + / IZR (2 ^ 51)).
+      { rewrite u53_val. change (2 ^ 53)%Z with (4 * 2 ^ 51)%Z. rewrite mult_IZR.
+        assert (Hp : 1 <= IZR (2 ^ 51)) by (apply IZR_le; lia).
+        assert (Hi : 0 < / IZR (2 ^ 51) <= 1).
+        { split; [apply Rinv_0_lt_compat; lra|rewrite <- Rinv_1; apply Rinv_le; lra]. }
+        rewrite Rinv_mult. split; [lra|nra]. }
+      assert (Hp51 : 0 < IZR (2 ^ 51)) by (apply IZR_lt; lia).
+      assert (HTy : T * y <= x * (1 + u53)).
+      { destruct Hy as [_ Hy]. apply Rmult_le_compat_l with (r := T) in Hy; [|lra].
+        replace (T * (x / T * (1 + u53))) with (x * (1 + u53)) in Hy by (field; lra). exact Hy. }
+      assert (Hchain : T * IZR (Zfloor y) <= IZR d * (1 + / IZR (2 ^ 51))).
+      { apply Rle_trans with (T * y); [apply Rmult_le_compat_l; lra|].
+        apply Rle_trans with (x * (1 + u53)); [exact HTy|].
+        apply Rle_trans with (IZR d * (1 + u53) * (1 + u53)); [apply Rmult_le_compat_r; lra|].
+        rewrite Rmult_assoc. apply Rmult_le_compat_l; lra. }
+      apply Rmult_le_compat_r with (r := IZR (2 ^ 51)) in Hchain; [|lra].
+      replace (IZR d * (1 + / IZR (2 ^ 51)) * IZR (2 ^ 51)) with (IZR d * (IZR (2 ^ 51) + 1)) in Hchain by (field; lra).
+      exact Hchain.
+  - intros Hd0.
+    assert (Hx : x <= 0) by (unfold x; rewrite <- rnd_0; apply rnd_mono; apply IZR_le; exact Hd0).
+    assert (Hq0 : x / T <= 0) by (unfold Rdiv; nra).
+    assert (Hy : y <= 0) by (unfold y; rewrite <- rnd_0; apply rnd_mono; exact Hq0).
+    replace y with (- (- y)) by lra. rewrite Ztrunc_opp, Ztrunc_floor by lra.
+    assert (0 <= Zfloor (- y))%Z by (apply Zfloor_lub; lra). lia.
+Qed.
+
+(* the conversion back to i64 succeeds as long as |d| <= 2^63 - 1024 (the largest binary64 number
+   below 2^63): the share never panics on such operands *)
+Lemma big_format : F64 (IZR (2 ^ 63 - 1024)).
+Proof.
+  rewrite fexp64_FLT. apply generic_format_FLT. exists (Float radix2 (2 ^ 53 - 1) 10).
+  - unfold F2R. cbn [Fnum Fexp]. change (bpow radix2 10) with (IZR (2 ^ 10)).
+    rewrite <- mult_IZR. f_equal.
+  - cbn. lia.
+  - cbn. lia.
+Qed.
+
+Theorem headroom_f64_some d tc : (Z.abs d <= 2 ^ 63 - 1024)%Z -> (1 <= Z.of_nat tc <= 2 ^ 53)%Z ->
+  exists h, headroom_f64 d tc = Some h.
+Proof.
+  intros Hd Htc. unfold headroom_f64.
+  destruct (BofZ_round d ltac:(lia)) as [Rd Fd].
+  destruct (BofZ_correct (Z.of_nat tc)) as [Rt Ft]; [lia|].
+  rewrite (BofZ_link d), (BofZ_link (Z.of_nat tc)), div_link.
+  assert (Hne : B2R (BofZ (Z.of_nat tc)) <> 0) by (rewrite Rt; apply not_0_IZR; lia).
+  pose proof (Bdiv_correct prec emax Hprec Hmax mode_NE (BofZ d) (BofZ (Z.of_nat tc)) Hne) as H.
+  rewrite Rd, Rt in H. change (round_mode mode_NE) with ZnearestE in H.
+  set (x := rnd (IZR d)) in *. set (T := IZR (Z.of_nat tc)) in *.
+  assert (HT1 : 1 <= T) by (apply IZR_le; lia).
+  assert (HTi : 0 < / T <= 1).
+  { split; [apply Rinv_0_lt_compat; lra|]. rewrite <- Rinv_1. apply Rinv_le; lra. }
+  set (M := IZR (2 ^ 63 - 1024)).
+  assert (HM : 0 <= M) by (apply IZR_le; lia).
+  assert (Hx : Rabs x <= M).
+  { apply abs_round_le_generic; auto with typeclass_instances; [apply valid64|apply big_format|].
+    rewrite <- abs_IZR. apply IZR_le. exact Hd. }
+  assert (Hq : Rabs (x / T) <= M).
+  { unfold Rdiv. rewrite Rabs_mult, (Rabs_pos_eq (/ T)) by lra. pose proof (Rabs_pos x). nra. }
+  assert (Hy : Rabs (rnd (x / T)) <= M).
+  { apply abs_round_le_generic; auto with typeclass_instances; [apply valid64|apply big_format]. }
+  rewrite Rlt_bool_true in H.
+  2:{ apply Rle_lt_trans with M; [exact Hy|]. apply Rlt_trans with (IZR (2 ^ 64)); [apply IZR_lt; lia|apply pow64_lt_emax]. }
+  destruct H as (HR & HF & _). rewrite Fd in HF.
+  rewrite (trunc_Z_B2SF _ HF), HR.
+  set (y := rnd (x / T)) in *.
+  assert (Hz : (Z.abs (Ztrunc y) <= 2 ^ 63 - 1024)%Z).
+  { apply le_IZR. rewrite abs_IZR. fold M.
+    apply Rle_trans with (Rabs y); [|exact Hy].
+    destruct (Rle_or_lt 0 y) as [P|N].
+    - rewrite Ztrunc_floor by exact P. pose proof (Zfloor_lb y).
+      assert (0 <= IZR (Zfloor y)) by (apply IZR_le, Zfloor_lub; lra).
+      rewrite !Rabs_pos_eq by lra. lra.
+    - rewrite Ztrunc_ceil by lra. pose proof (Zceil_ub y).
+      assert (IZR (Zceil y) <= 0) by (apply IZR_le, Zceil_glb; lra).
+      rewrite !Rabs_left1 by lra. lra. }
+  unfold in_i64.
+  destruct (Z.leb_spec (- 2 ^ 63) (Ztrunc y)); destruct (Z.ltb_spec (Ztrunc y) (2 ^ 63)); cbn [andb]; eauto; lia.
+Qed.
